@@ -1,7 +1,7 @@
 (* C03: the machine's call stack refines the scoping of the reference semantics, and the
    reference semantics has the advertised scoping laws. *)
 From Coq Require Import ZArith String List Bool PrimFloat Lia.
-From Bardolph Require Import Base.PyFloat Gen.Codes Time.TimeSpec Time.TimePattern
+From Bardolph Require Import Base.PyFloat Gen.Codes Time.TimeSpec Time.TimeCore
   Lang.Value Lang.Units0 Lang.World Lang.Regs Lang.Devices Lang.Builtins Lang.Syntax Lang.Sem
   Lang.Instr Lang.Loader Lang.Machine.
 Open Scope string_scope.
